@@ -90,6 +90,11 @@ impl Vm {
             if let "quote" | "define-syntax" = proc.as_str() {
                 return Ok(expr.clone());
             }
+            // Only the unquoted parts of a quasiquote template are code
+            if proc.as_str() == "quasiquote" && rest.is_pair() && rest.cdr().unwrap().is_nil() {
+                let template = self.transform_quasiquote(rest.car().unwrap(), 0)?;
+                return Ok(Cell::new_list(vec![expr.car().unwrap().clone(), template]));
+            }
         }
 
         if let Some(sym) = self.heap.get_sym_ref(proc) {
@@ -114,6 +119,53 @@ impl Vm {
         } else {
             let rest = self.transform(rest)?;
             Ok(Cell::new_improper_list(v, rest))
+        }
+    }
+
+    /// Transform Quasiquote
+    ///
+    /// Apply pre-compilation transforms to the unquoted expressions of a quasiquote
+    /// template (lists and vectors), leaving the quoted parts untouched.
+    ///
+    /// # Arguments
+    /// `expr` - The template
+    /// `depth` - The quasiquote nesting depth of expr
+    pub fn transform_quasiquote(&mut self, expr: &Cell, depth: usize) -> Result<Cell, Error> {
+        match expr {
+            Cell::Vector(vector) => {
+                let mut v = Vec::with_capacity(vector.len());
+                for it in vector {
+                    v.push(self.transform_quasiquote(it, depth)?);
+                }
+                Ok(Cell::Vector(v))
+            }
+            Cell::Pair(car, cdr) => {
+                let is_form = cdr.is_pair() && cdr.cdr().unwrap().is_nil();
+                if car.is_unquote() && is_form {
+                    let arg = cdr.car().unwrap();
+                    let arg = match depth {
+                        0 => self.transform(arg)?,
+                        _ => self.transform_quasiquote(arg, depth - 1)?,
+                    };
+                    Ok(Cell::new_list(vec![car.as_ref().clone(), arg]))
+                } else if car.is_quasiquote() && is_form {
+                    let arg = self.transform_quasiquote(cdr.car().unwrap(), depth + 1)?;
+                    Ok(Cell::new_list(vec![car.as_ref().clone(), arg]))
+                } else {
+                    let mut v = vec![];
+                    let mut rest = expr;
+                    while rest.is_pair() {
+                        v.push(self.transform_quasiquote(rest.car().unwrap(), depth)?);
+                        rest = rest.cdr().unwrap();
+                    }
+                    if rest.is_nil() {
+                        Ok(Cell::new_list(v))
+                    } else {
+                        Ok(Cell::new_improper_list(v, rest.clone()))
+                    }
+                }
+            }
+            cell => Ok(cell.clone()),
         }
     }
 
